@@ -12,11 +12,11 @@ def inlineParent : NodeValue → Bool
   | _ => false
 
 def blockParent : NodeValue → Bool
-  | .document | .blockQuote | .item _ => true
+  | .document | .blockQuote | .item _ | .taskItem _ => true
   | _ => false
 
 theorem shape_leaf_inline (p v : NodeValue) (hp : inlineParent p = true)
-    (hv : v.kind = .text ∨ v.kind = .code ∨ v.kind = .softBreak ∨ v.kind = .lineBreak) :
+    (hv : v.kind = .text ∨ v.kind = .code ∨ v.kind = .softBreak ∨ v.kind = .lineBreak ∨ v.kind = .footnoteReference) :
     shapeT (some p) (leaf v) = true := by
   cases p <;> simp [inlineParent] at hp <;>
     (cases v <;> simp_all [NodeValue.kind, leaf, shapeT, shapeF, canContain, Kind.isBlock, placeOk, localOk])
@@ -34,6 +34,7 @@ theorem inl_shape : ∀ (i : Inl) (p : NodeValue), inlineParent p = true → sha
   | .code n s, p, hp => shape_leaf_inline p _ hp (by simp [NodeValue.kind])
   | .hard b, p, hp => shape_leaf_inline p _ hp (by simp [NodeValue.kind])
   | .soft, p, hp => shape_leaf_inline p _ hp (by simp [NodeValue.kind])
+  | .fnref .., p, hp => shape_leaf_inline p _ hp (by simp [NodeValue.kind])
   | .emph _ cs, p, hp => shape_node_inline p _ _ hp (by simp) (inls_shape cs .emph rfl)
   | .strong _ cs, p, hp => shape_node_inline p _ _ hp (by simp) (inls_shape cs .strong rfl)
   | .strike cs, p, hp => shape_node_inline p _ _ hp (by simp) (inls_shape cs .strikethrough rfl)
@@ -49,6 +50,76 @@ theorem inls_shape : ∀ (is : Inls) (p : NodeValue), inlineParent p = true → 
     simp only [Inls.toForest, shapeF, Bool.and_eq_true]
     exact ⟨inl_shape i p hp, inls_shape r p hp⟩
 end
+
+/-! ### Table cells -/
+
+theorem cell_inl_shape : ∀ (i : Inl) (a b : Bool) (p n : UInt8) (f l : Bool) (pc : Nat),
+    i.wf a b false p n f l pc = true → shapeT (some .tableCell) i.toTree = true
+  | .text as, _, _, _, _, _, _, _, _ => by
+    simp [Inl.toTree, leaf, shapeT, shapeF, canContain, NodeValue.kind, Kind.isBlock, placeOk, localOk]
+  | .code n s, _, _, _, _, _, _, _, _ => by
+    simp [Inl.toTree, leaf, shapeT, shapeF, canContain, NodeValue.kind, Kind.isBlock, placeOk, localOk]
+  | .emph _ cs, _, _, _, _, _, _, _, _ => by
+    simp [Inl.toTree, shapeT, canContain, NodeValue.kind, Kind.isBlock, placeOk, localOk, inls_shape cs .emph rfl]
+  | .strong _ cs, _, _, _, _, _, _, _, _ => by
+    simp [Inl.toTree, shapeT, canContain, NodeValue.kind, Kind.isBlock, placeOk, localOk, inls_shape cs .strong rfl]
+  | .strike cs, _, _, _, _, _, _, _, _ => by
+    simp [Inl.toTree, shapeT, canContain, NodeValue.kind, Kind.isBlock, placeOk, localOk, inls_shape cs .strikethrough rfl]
+  | .link u t _ _ cs, _, _, _, _, _, _, _, _ => by
+    simp [Inl.toTree, shapeT, canContain, NodeValue.kind, Kind.isBlock, placeOk, localOk, inls_shape cs (.link u t) rfl]
+  | .image u t _ cs, _, _, _, _, _, _, _, _ => by
+    simp [Inl.toTree, shapeT, canContain, NodeValue.kind, Kind.isBlock, placeOk, localOk, inls_shape cs (.image u t) rfl]
+  | .autolink s r, _, _, _, _, _, _, _, _ => by
+    simp [Inl.toTree, leaf, shapeT, shapeF, canContain, NodeValue.kind, Kind.isBlock, placeOk, localOk]
+  | .hard _, _, _, _, _, _, _, _, h => by simp [Inl.wf] at h
+  | .soft, _, _, _, _, _, _, _, h => by simp [Inl.wf] at h
+  | .fnref .., _, _, _, _, _, _, _, _ => by
+    simp [Inl.toTree, leaf, shapeT, shapeF, canContain, NodeValue.kind, Kind.isBlock, placeOk, localOk]
+
+theorem cell_inls_shape : ∀ (is : Inls) (a b : Bool) (p n : UInt8) (f : Bool) (pc : Nat),
+    is.wf a b false p n f pc = true → shapeF (some .tableCell) is.toForest = true
+  | .nil, _, _, _, _, _, _, _ => rfl
+  | .cons i r, a, b, p, n, f, pc, h => by
+    simp only [Inls.wf, Bool.and_eq_true] at h
+    simp only [Inls.toForest, shapeF, Bool.and_eq_true]
+    exact ⟨cell_inl_shape i _ _ _ _ _ _ _ h.1.2, cell_inls_shape r _ _ _ _ _ _ h.2⟩
+
+theorem cellsForest_length : ∀ cs : List Inls, (cellsForest cs).length = cs.length
+  | [] => rfl
+  | c :: r => by simp [cellsForest, Forest.length, cellsForest_length r]
+
+theorem cellsForest_allCells : ∀ cs : List Inls, allCells (cellsForest cs) = true
+  | [] => rfl
+  | c :: r => by simp [cellsForest, allCells, cellsForest_allCells r]
+
+theorem cellsForest_shape (hd : Bool) : ∀ cs : List Inls, cs.all cellWf = true →
+    shapeF (some (.tableRow hd)) (cellsForest cs) = true
+  | [], _ => rfl
+  | c :: r, h => by
+    simp only [List.all_cons, Bool.and_eq_true] at h
+    have hc : shapeF (some .tableCell) c.toForest = true := by
+      have := h.1
+      simp only [cellWf, Bool.and_eq_true] at this
+      exact cell_inls_shape c _ _ _ _ _ _ this.1
+    simp [cellsForest, shapeF, shapeT, canContain, NodeValue.kind, placeOk, isRowV, localOk, hc,
+      cellsForest_shape hd r h.2]
+
+theorem row_shape (al : List Align) (a b c : Nat) (hd : Bool) (cs : List Inls) (h : cs.all cellWf = true) :
+    shapeT (some (.table al a b c)) (.node (.tableRow hd) {} (cellsForest cs)) = true := by
+  simp [shapeT, canContain, NodeValue.kind, placeOk, isTable, localOk, cellsForest_allCells, cellsForest_shape hd cs h]
+
+theorem rowsForest_shape (al : List Align) (a b c n : Nat) : ∀ rows : List (List Inls),
+    rows.all (fun r => r.length == n) = true → rows.all (fun r => r.all cellWf) = true →
+    shapeF (some (.table al a b c)) (rowsForest rows) = true ∧ restRows (rowsForest rows) = true ∧
+      cellsOk n (rowsForest rows) = true
+  | [], _, _ => ⟨rfl, rfl, rfl⟩
+  | r :: rs, h1, h2 => by
+    simp only [List.all_cons, Bool.and_eq_true, beq_iff_eq] at h1 h2
+    obtain ⟨i1, i2, i3⟩ := rowsForest_shape al a b c n rs (by simpa using h1.2) h2.2
+    refine ⟨?_, ?_, ?_⟩
+    · simp only [rowsForest, shapeF, Bool.and_eq_true]; exact ⟨row_shape al a b c false r h2.1, i1⟩
+    · simp [rowsForest, restRows, i2]
+    · simp [rowsForest, cellsOk, cellsForest_length, h1.1, i3]
 
 theorem shape_block_node (p v : NodeValue) (cs : Forest) (hp : blockParent p = true)
     (hv : v = .paragraph ∨ v = .blockQuote ∨ v = .thematicBreak ∨ (∃ l, v = .list l) ∨
@@ -80,27 +151,50 @@ theorem blk_shape : ∀ (b : Blk) (p : NodeValue) (tight : Bool) (bullet : UInt8
   | .list m items, p, _, _, _, _, hp, h => by
     simp only [Blk.wf, Bool.and_eq_true] at h
     exact shape_block_node p _ _ hp (Or.inr (Or.inr (Or.inr (Or.inl ⟨_, rfl⟩)))) (items_shape items m m.start _ h.2)
+  | .htmlb ls, p, _, _, _, _, hp, _ => by
+    cases p <;> simp [blockParent] at hp <;>
+      simp [Blk.toTree, leaf, shapeT, shapeF, canContain, NodeValue.kind, Kind.isBlock, placeOk, localOk]
+  | .table al h rows, p, _, _, _, _, hp, hw => by
+    simp only [Blk.wf, Bool.and_eq_true, beq_iff_eq] at hw
+    obtain ⟨⟨⟨⟨⟨_, _⟩, hl⟩, hr⟩, hh⟩, hrs⟩ := hw
+    obtain ⟨i1, i2, i3⟩ := rowsForest_shape al h.length rows.length (bodyCells rows) al.length rows hr hrs
+    rw [hl] at i1
+    cases p <;> simp [blockParent] at hp <;>
+      simp [Blk.toTree, shapeT, shapeF, canContain, NodeValue.kind, Kind.isBlock, placeOk, localOk, rowsOk, cellsOk,
+        cellsForest_length, hl, i1, i2, i3, isTable, cellsForest_allCells, cellsForest_shape true h hh]
 theorem blks_shape : ∀ (bs : Blks) (p : NodeValue) (tight : Bool) (bullet : UInt8) (idx : Nat) (prev : Prev),
     blockParent p = true → bs.wf tight bullet idx prev = true → shapeF (some p) bs.toForest = true
   | .nil, _, _, _, _, _, _, _ => rfl
   | .cons b r, p, tight, bullet, idx, prev, hp, h => by
     simp only [Blks.wf, Bool.and_eq_true] at h
     simp only [Blks.toForest, shapeF, Bool.and_eq_true]
-    exact ⟨blk_shape b p tight bullet idx prev hp h.1, blks_shape r p tight bullet (idx + 1) _ hp h.2⟩
+    exact ⟨blk_shape b p tight bullet idx prev hp h.1.1, blks_shape r p tight bullet (idx + 1) _ hp h.2⟩
 theorem items_shape : ∀ (items : Items) (m : Marker) (k : Nat) (L : NList),
     items.wf m = true → shapeF (some (.list L)) (items.toForest m k) = true
   | .nil, _, _, _, _ => rfl
-  | .cons bs r, m, k, L, h => by
+  | .cons t bs r, m, k, L, h => by
     simp only [Items.wf, Bool.and_eq_true] at h
     simp only [Items.toForest, shapeF, Bool.and_eq_true]
     refine ⟨?_, items_shape r m (k + 1) L h.2⟩
-    have hc := blks_shape bs (.item (m.nlist k false)) m.tight _ 0 .none rfl h.1.2
-    simp [shapeT, canContain, NodeValue.kind, Kind.isBlock, placeOk, localOk, hc]
+    have hc := blks_shape bs (t.value (m.nlist k false)) m.tight _ 0 .none (by cases t <;> rfl) h.1.2
+    cases t <;> simp [Task.value] at hc ⊢ <;> simp [shapeT, canContain, NodeValue.kind, Kind.isBlock, placeOk, localOk, hc]
 end
+
+theorem shapeF_then (p : Option NodeValue) (tail : Forest) : ∀ bs : Blks,
+    shapeF p (bs.toForestThen tail) = (shapeF p bs.toForest && shapeF p tail)
+  | .nil => by simp [Blks.toForestThen, Blks.toForest, shapeF]
+  | .cons b r => by simp [Blks.toForestThen, Blks.toForest, shapeF, shapeF_then p tail r, Bool.and_assoc]
+
+theorem notesForest_shape : ∀ notes : List Note, shapeF (some .document) (notesForest notes) = true
+  | [] => rfl
+  | n :: r => by
+    have hb := inls_shape n.body .paragraph rfl
+    simp [notesForest, Note.toTree, shapeF, shapeT, canContain, NodeValue.kind, Kind.isBlock, placeOk, isDocOrDef, localOk,
+      hb, notesForest_shape r]
 
 theorem doc_shape (d : Doc) (h : d.wf = true) : Shape d.toTree = true := by
   simp only [Doc.wf, Bool.and_eq_true] at h
-  have hc := blks_shape d.blocks .document false 0 0 .none rfl h.1
-  simp [Shape, Doc.toTree, shapeT, placeOk, localOk, hc]
+  have hc := blks_shape d.blocks .document false 0 0 .none rfl h.1.1
+  simp [Shape, Doc.toTree, shapeT, placeOk, localOk, shapeF_then, hc, notesForest_shape]
 
 end Comrak.Canon
